@@ -29,6 +29,11 @@ func genC09(g *Gen) {
 		case 0:
 			g.Count("case:mem-powerloss")
 			g.Op("open", "mem")
+			if g.R.Chance(35) {
+				c09RetentionTruncate(g, s, func(k int, op string) string {
+					return fmt.Sprintf("pl %d %d %d | %s", k, []int{0, 0, 50, 100}[g.R.Intn(4)], g.R.Intn(1<<30), op)
+				})
+			}
 			nops := g.R.Range(10, 22)
 			for j := 0; j < nops; j++ {
 				op := c09GenOp(g, s)
@@ -45,6 +50,9 @@ func genC09(g *Gen) {
 		case 1:
 			g.Count("case:disk-kill")
 			g.Op("open", "disk")
+			if g.R.Chance(35) {
+				c09RetentionTruncate(g, s, func(k int, op string) string { return fmt.Sprintf("kill %d | %s", k, op) })
+			}
 			nops := g.R.Range(5, 9)
 			for j := 0; j < nops; j++ {
 				op := c09GenOp(g, s)
@@ -65,6 +73,41 @@ func genC09(g *Gen) {
 			}
 		}
 	}
+}
+
+// c09RetentionTruncate: directed prelude — a log of 8-10 rows, a small HW, retention adopted and trimmed while
+// the log is long (so RetainedMaxSeq = LEO > any later truncation target), then ONE crash-wrapped truncate
+// below RetainedMaxSeq whose crash point k sweeps the file-system calls of the op (a truncate that needed two
+// commits would be caught between them).
+func c09RetentionTruncate(g *Gen, s *c09Sim, wrap func(k int, op string) string) {
+	g.Count("directed:trim-then-truncate")
+	c := g.R.Range(1, 3)
+	n := g.R.Range(8, 10)
+	hw := g.R.Range(2, 4)
+	if c == 3 {
+		for i := 0; i < n; i++ {
+			rs, _ := s.recs(g, 1, false)
+			committed := 0
+			if i+1 == hw {
+				committed = hw
+			}
+			emitC09(g, fmt.Sprintf("xapp 3 %d 1 %d 1 %s", s.nextCmd, committed, rs))
+			s.nextCmd++
+		}
+	} else {
+		rs, _ := s.recs(g, n, false)
+		emitC09(g, fmt.Sprintf("fetch %d %d %s", c, hw, rs))
+	}
+	s.leo[c], s.hw[c] = uint64(n), uint64(hw)
+	a := g.R.Range(1, hw)
+	emitC09(g, fmt.Sprintf("adopt %d %d", c, a))
+	emitC09(g, fmt.Sprintf("trim %d %d %d", c, a, g.R.Pick(3, 1)))
+	s.local[c] = uint64(a)
+	to := g.R.Range(hw, n-1)
+	k := []int{1, 2, 3, 3, 4, 4, 5, 6}[g.R.Intn(8)]
+	g.Count(fmt.Sprintf("directed:trunc-crash-k=%d", k))
+	emitC09(g, wrap(k, fmt.Sprintf("trunc %d %d", c, to)))
+	s.leo[c] = uint64(to)
 }
 
 func c09Bucket(k int) string {
